@@ -4,7 +4,8 @@
      (generator/rasn/utils.rs).  Only `charset_subsets` is modelled: it is all the generator reads.
      Set operations at the level of the constraint go through Model/PerVisible.fold in alphabet mode.
      Character sets and the known-multiplier test are Gen/T03.v (re-translated on every run).
-     Contained subtypes (INCLUDES T) are not modelled here: [Contained] yields no alphabet. *)
+     A contained subtype that is the whole constraint (`IA5String (A)`, after linking: the included type's string type
+     and serial constraints) is [AIncl] below; inside a set operation it is PerVisible.Contained (ignored by the fold). *)
 From Coq Require Import ZArith NArith List Bool.
 Require Import RasnV.Model.Base RasnV.Model.PerVisible RasnV.Gen.T03.
 Import ListNotations.
@@ -84,4 +85,33 @@ Definition alphabet_annotation (fuel : nat) (t : string_type) (cs : list constra
   match cs with
   | [] => Ok None
   | _ => bind (collect fuel t cs) (fun l => Ok (match sort_subsets l with [] => None | s => Some s end))
+  end.
+
+(* ---- a constraint that is either an ordinary one or the inclusion of another (linked) string type:
+   from_subtype_elem, ContainedSubtype arm: default_for(string_type) += try_new(c, c_string.ty) for every constraint
+   of the included type -- with the INCLUDED type's character set *)
+Inductive aconstraint :=
+| ACons (c : constraint)
+| AIncl (t' : string_type) (cs' : list constraint).
+
+Definition try_new_a (fuel : nat) (t : string_type) (a : aconstraint) : res (option (list subset)) :=
+  match a with
+  | ACons c => try_new fuel t c
+  | AIncl t' cs' =>
+      if negb (known_multiplier t) then Ok None
+      else bind (collect fuel t' cs') (fun l => Ok (Some l))
+  end.
+
+Fixpoint collect_a (fuel : nat) (t : string_type) (cs : list aconstraint) : res (list subset) :=
+  match cs with
+  | [] => Ok []
+  | c :: r =>
+      bind (try_new_a fuel t c) (fun o =>
+      bind (collect_a fuel t r) (fun l => Ok ((match o with Some p => p | None => [] end) ++ l)))
+  end.
+
+Definition alphabet_annotation_a (fuel : nat) (t : string_type) (cs : list aconstraint) : res (option (list subset)) :=
+  match cs with
+  | [] => Ok None
+  | _ => bind (collect_a fuel t cs) (fun l => Ok (match sort_subsets l with [] => None | s => Some s end))
   end.
